@@ -358,6 +358,12 @@ pcgstrf_MemInit(int_t n, int_t annz, superlumt_options_t *superlumt_options,
 	    xusub      = (int_t *)cuser_malloc((n+1) * iword, HEAD);
 	    xusub_end  = (int_t *)cuser_malloc((n) * iword, HEAD);
 	}
+	if ( !xsup || !xsup_end || !supno || !xlsub || !xlsub_end ||
+	     !xlusup || !xlusup_end || !xusub || !xusub_end ) {
+	    /* not even room for the integer arrays (the caller frees what
+	       was taken from the heap, as after every other failure here) */
+	    return (pcgstrf_memory_use(nzlmax, nzumax, nzlumax) + n);
+	}
 
 	lusup = (complex *) pcgstrf_expand( &nzlumax, LUSUP, 0, 0, Glu );
 	ucol  = (complex *) pcgstrf_expand( &nzumax, UCOL, 0, 0, Glu );
@@ -374,7 +380,10 @@ pcgstrf_MemInit(int_t n, int_t annz, superlumt_options_t *superlumt_options,
 		SUPERLU_FREE(lsub);
 		SUPERLU_FREE(usub);
 	    } else {
-		cuser_free(nzumax*dword+(nzlmax+nzumax)*iword, HEAD);
+		/* give back only what was obtained: a request that failed
+		   took nothing from the stack */
+		cuser_free((ucol ? nzumax*dword : 0) + (lsub ? nzlmax*iword : 0)
+			   + (usub ? nzumax*iword : 0), HEAD);
 	    }
 	    nzumax /= 2;    /* reduce request */
 	    nzlmax /= 2;
